@@ -267,6 +267,10 @@ def search(ctx, boost=1, focus=()):
         p = {"seed": 0, "pattern": pat,
              "shapes": [[int(rng.integers(2, 60)), int(rng.integers(2, 60))] for _ in range(int(rng.integers(2, 6)))]}
         p["shapes"].append(p["shapes"][0])
+        if k % 2:   # neighbours whose rfft2 spectra have equal shapes, and a smaller odd shape after a larger even one
+            h0, w0 = p["shapes"][0]
+            p["shapes"] += [[h0, w0 + 1], [h0, w0], [h0 + 1, w0], [2 * (h0 // 2) + 4, 2 * (w0 // 2) + 6],
+                            [2 * (h0 // 2) + 1, 2 * (w0 // 2) + 1], [h0, w0 - 1 if w0 > 2 else w0 + 1]]
         ctx.oracle_case("requery", p, run_case("requery", p))
         ctx.count("requery")
     hows = {"rgbs": ("inplace", "rebind_array", "delta", "scalars"), "user": ("inplace", "rebind")}
